@@ -1,6 +1,6 @@
 """C12 — batch / parallel execution equals running each task in turn; failures surface; payloads arrive unchanged."""
 from __future__ import annotations
-import math, random
+import json, math, random
 import numpy as np
 from ..core import CheckSpec, Outcome, Lean
 
@@ -29,14 +29,25 @@ def run(case: dict, lean: Lean) -> Outcome:
         tasks = list(case["tasks"])
         if case["fail_at"] is not None and len(tasks) > case["fail_at"]: tasks[case["fail_at"]] = -1; classes.append("failing task")
         want_fail = any(t < 0 for t in tasks)
+        # the collector model: any completion order (here a random permutation) yields the sequential result, a failing task surfaces
+        order = list(range(len(tasks))); rnd.shuffle(order)
+        distinct = []; tag = lambda v: distinct.index(v) if v in distinct else (distinct.append(v) or len(distinct) - 1)
+        seq_vals = [None if t < 0 else work(model, t) for t in tasks]
+        m = lean.call("c12.batch", {"keys": [int(t) for t in tasks], "outcomes": [None if v is None else tag(repr(v)) for v in seq_vals], "order": order})
+        real = None
         try:
             with invoker(model, work, n_jobs=nj) as inv: out = list(inv.map(tasks))
+            real = {"ok": [[int(t), tag(repr(o))] for t, o in zip(tasks, out)]} if len(out) == len(tasks) else {"ok": "wrong length"}
             if want_fail: failed.append("a failing task did not surface as an error")
             elif out != [work(model, x) for x in tasks]: failed.append("results differ from f(model, x) in task order (or the payload changed on the way)")
         except Boom:
+            real = {"error": True}
             if not want_fail: failed.append("unexpected task failure")
         except Exception as e:
+            real = {"error": type(e).__name__}
             failed.append(f"invoker raised {type(e).__name__}: {str(e)[:60]}")
+        mm = m["batch"]; model_says = {"error": True} if "error" in mm else {"ok": mm["ok"]}
+        if real != model_says: failed.append(f"collector model predicts {json.dumps(model_says)[:120]}, implementation gave {json.dumps(real)[:120]}")
         if not tasks: classes.append("no tasks")
         if len(tasks) > nj: classes.append("more tasks than workers")
         return Outcome(not failed, not failed, tuple(classes), {"failed": failed}, None)
@@ -80,6 +91,13 @@ def run(case: dict, lean: Lean) -> Outcome:
             if got_keys != keys_in: failed.append(f"result keys {got_keys} differ from the input keys {keys_in}")
             for k, il in out.items():
                 if _canon(il) != seq[int(k.user_id)]: failed.append(f"key {k.user_id}: batch result differs from the single-query result")
+        # collector model over the same keys with the single-query results as task outcomes
+        if not seq_failed or True:
+            distinct = []; tag = lambda v: distinct.index(v) if v in distinct else (distinct.append(v) or len(distinct) - 1)
+            order = list(range(len(keys_in))); rnd.shuffle(order)
+            m = lean.call("c12.batch", {"keys": keys_in, "outcomes": [None if (seq_failed and u == fail_user) else tag(repr(seq.get(u))) for u in keys_in], "order": order})["batch"]
+            if "error" in m: failed.append("collector model predicts an error but the batch run returned results")
+            elif [[int(k.user_id), tag(repr(_canon(il)))] for k, il in out.items()] != m["ok"]: failed.append("batch output differs from the collector model (keys, order or attribution)")
     except ZeroDivisionError:
         failed.append("empty request collection raises ZeroDivisionError")
         if not reqs: key = "batch run over an empty request collection raises ZeroDivisionError"
@@ -88,6 +106,6 @@ def run(case: dict, lean: Lean) -> Outcome:
     return Outcome(not failed, not failed, tuple(classes), {"failed": failed[:6]}, key)
 
 SPEC = CheckSpec(
-    pid="C12", theorems=[f"LK.Batch.C12_Batch_{n}" for n in ["batch_eq_sequential", "failure_surfaces", "sequential_keys", "fanout_eq_map"]], correspondence_ops=[],
+    pid="C12", theorems=[f"LK.Batch.C12_Batch_{n}" for n in ["batch_eq_sequential", "failure_surfaces", "sequential_keys", "fanout_eq_map"]], correspondence_ops=["c12.batch"],
     nontrivial_rule="distinct cases reaching ≥1 of: batch / invoker × worker counts, each key form and operation, no keys / tasks, duplicate keys, failing key / task, more tasks than workers",
     budgets={"quick": 12, "thorough": 170}, gen=gen, run=run, shrink=None)
